@@ -87,10 +87,10 @@ def compactTask (t : Task) : List Event :=
       then [Event.body t.id t.body (some (pickTime t.lastBody t.updatedAt))] else [])
   ++ (if !t.isEpic && (t.epicId != cEpic || (t.lastEpic != 0 && t.lastEpic > cAt))
       then [Event.epic t.id t.epicId (some (pickTime t.lastEpic t.updatedAt))] else [])
-  ++ (if t.claimedBy != ""
-      then [Event.claim t.id t.claimedBy (some (pickTime t.lastClaim t.updatedAt))] else [])
   ++ (if t.st != cSt || (t.lastState != 0 && t.lastState > cAt)
       then [Event.state t.id t.st (some (pickTime t.lastState t.updatedAt))] else [])
+  ++ (if t.claimedBy != ""
+      then [Event.claim t.id t.claimedBy (some (pickTime t.lastClaim t.updatedAt))] else [])
   ++ t.results.reverse.map fun r => Event.result t.id r.summary r.path r.sha r.mtime r.git (some r.time)
 
 def taskIdLe (a b : Task) : Bool := strLe a.id b.id
